@@ -17,12 +17,12 @@ inductive Pass (α : Type)
 /-- one `Circuit` method call -/
 def Pass.run (atol : α) : Pass α → Circuit α → Circuit α × Option Err
   | .decompose d, c =>
-      let r := decomposeBuiltin atol d c.stmts
+      let r := OSq.decomposeBuiltin atol d c.stmts
       ({ c with stmts := r.1 }, r.2)
   | .replace name f, c =>
-      let r := replace atol name f c.stmts
+      let r := OSq.replace atol name f c.stmts
       ({ c with stmts := r.1 }, r.2)
-  | .merge, c => merge atol c
+  | .merge, c => OSq.merge atol c
   | .map m, c =>
       match mkMapping m >>= mkMapper c.nQubits with
       | .error e => (c, some e)
